@@ -117,6 +117,31 @@ HasAmpList(L)     == AnyList(L, {"amp"})
 HasAmpComplex(c)  == AnyComplex(c, {"amp"})
 
 ---------------------------------------------------------------------------
+(* The domain on which nesting is specified here: `&` only as the first     *)
+(* simple selector of a compound and at most once per complex selector      *)
+(* (arguments of pseudo-classes count separately), a suffix only directly   *)
+(* after `&`, a type selector only first; a complex selector that starts    *)
+(* with a combinator contains no `&` and stands at the top level of a       *)
+(* nested rule; the outermost rule has neither.                             *)
+
+RECURSIVE OkComplex(_, _), OkCompound(_)
+OkCompound(cmp) ==
+  /\ Len(cmp) >= 1 /\ cmp[1].k # "sfx"
+  /\ \A s \in 2..Len(cmp) : /\ cmp[s].k \notin {"amp", "elem"}
+                             /\ (cmp[s].k = "sfx" => (s = 2 /\ cmp[1].k = "amp"))
+  /\ \A s \in 1..Len(cmp) : cmp[s].k = "fn" =>
+        (Len(cmp[s].arg) >= 1 /\ \A i \in 1..Len(cmp[s].arg) : OkComplex(cmp[s].arg[i], FALSE))
+OkComplex(c, top) ==
+  /\ Len(c) >= 1
+  /\ \A k \in 1..Len(c) : OkCompound(c[k].cmp)
+  /\ Cardinality({k \in 1..Len(c) : c[k].cmp[1].k = "amp"}) <= 1
+  /\ (c[1].comb # "" => (top /\ ~HasAmpComplex(c)))
+
+WellFormed(lv) ==
+  /\ \A n \in 1..Len(lv) : Len(lv[n]) >= 1 /\ \A i \in 1..Len(lv[n]) : OkComplex(lv[n][i], n > 1)
+  /\ ~HasAmpList(lv[1])
+
+---------------------------------------------------------------------------
 (* Deviation compound_reordered: storage order of a compound selector       *)
 
 Rank(k) == CASE k \in {"amp", "sfx", "elem"} -> 0 [] k = "ph" -> 1 [] k = "id" -> 2
@@ -275,7 +300,8 @@ Observe(toks, Dev) ==
       lv   == IF "compound_reordered" \in Dev THEN Sq([n \in 1..Len(lv0) |-> CanonList(lv0[n])]) ELSE lv0
       res  == Sq([n \in 1..Len(lv) |-> Resolved(lv, n, Dev)])
       bad(k) == \E n \in 1..Len(lv) : AnyList(res[n], {k})
-  IN IF bad("undef") THEN [st |-> "undef", rules |-> <<>>]
+  IN IF ~WellFormed(lv0) THEN [st |-> "undef", rules |-> <<>>]
+     ELSE IF bad("undef") THEN [st |-> "undef", rules |-> <<>>]
      ELSE IF bad("panic") THEN [st |-> "panic", rules |-> <<>>]
      ELSE [st |-> "ok",
            rules |-> Cat(Sq([n \in 1..Len(lv) |->
@@ -308,7 +334,7 @@ IsSubseq(a, b) == IF Len(a) = 0 THEN TRUE ELSE IF Len(b) = 0 THEN FALSE
 Laws(toks) ==
   LET lv  == Levels(toks)
       res == Sq([n \in 1..Len(lv) |-> Resolved(lv, n, {})])
-      undef == \E n \in 1..Len(lv) : AnyList(res[n], {"undef"})
+      undef == ~WellFormed(lv) \/ \E n \in 1..Len(lv) : AnyList(res[n], {"undef"})
   IN undef \/
   /\ \A n \in 1..Len(lv) : ~HasAmpList(res[n])                       \* no `&` survives resolution
   (* second, declarative formulation of the plain case: without `&` the   *)
